@@ -3931,9 +3931,16 @@ impl Compiler {
 
         let stack_count = self.stack_count();
 
-        let match_register = self
-            .compile_node(match_expression, ctx.with_any_register())?
-            .unwrap(self)?;
+        let match_value = self.compile_node(match_expression, ctx.with_any_register())?;
+        let match_register = if match_value.is_temporary {
+            match_value.unwrap(self)?
+        } else {
+            // The value is in a local's register, and a pattern that binds the same id would
+            // overwrite it while it's still being matched: match against a copy.
+            let copy_register = self.push_register()?;
+            self.push_op(Op::Copy, &[copy_register, match_value.unwrap(self)?]);
+            copy_register
+        };
         let match_len = match ctx.node(match_expression) {
             Node::TempTuple(expressions) => expressions.len(),
             _ => 1,
